@@ -54,6 +54,7 @@ class Batch:
         self.ck = ck
         self.n = 0
         self.runs = 0
+        self.hangs = 0
 
     def run(self, cmd, texts, chunk=6000):
         out = []
@@ -70,7 +71,7 @@ class Batch:
         for i, t in enumerate(texts):
             with open(os.path.join(d, "%d.c" % i), "wb") as f:
                 f.write(t if isinstance(t, bytes) else t.encode("utf-8"))
-        script = 'for f; do timeout 30 $CMD "$f" >/dev/null 2>"$f.err"; echo "$f $?"; done'
+        script = 'for f; do timeout 15 $CMD "$f" >/dev/null 2>"$f.err"; echo "$f $?"; done'
         names = "".join(os.path.join(d, "%d.c" % i) + "\n" for i in range(len(texts)))
         r = subprocess.run(["xargs", "-P", str(common.NPROC), "-n", "24", "sh", "-c", script, "sh"],
                            input=names, stdout=subprocess.PIPE, stderr=subprocess.PIPE, text=True,
@@ -87,25 +88,29 @@ class Batch:
             c = rc[f]
             with open(f + ".err", "rb") as g:
                 err = g.read(4000).decode("utf-8", "replace")
-            if c == 124:      # timeout under load: once more, alone; a second timeout is a result (a hang)
+            if c == 124 and self.hangs < 3:
+                # timeout under load: once more, alone; a second timeout is a result (a hang)
                 try:
-                    p = subprocess.run(cmd.split() + [f], stdout=subprocess.DEVNULL, stderr=subprocess.PIPE, timeout=60)
+                    p = subprocess.run(cmd.split() + [f], stdout=subprocess.DEVNULL, stderr=subprocess.PIPE, timeout=40)
                     c, err = p.returncode, p.stderr.decode("utf-8", "replace")[:4000]
                 except subprocess.TimeoutExpired:
-                    c, err = 124, "timeout: no result within 60 s"
+                    self.hangs += 1
+                    c, err = 124, "timeout: no result within 40 s"
+            elif c == 124:
+                err = "timeout: no result within 15 s (and three earlier units did not end within 40 s either)"
             res.append((c, err))
         self.runs += len(texts)
         shutil.rmtree(d, True)
         return res
 
 
-def one(cmd, text, path):
+def one(cmd, text, path, timeout=60):
     with open(path, "wb") as f:
         f.write(text if isinstance(text, bytes) else text.encode("utf-8"))
     try:
-        p = subprocess.run(cmd.split() + [path], stdout=subprocess.DEVNULL, stderr=subprocess.PIPE, timeout=120)
+        p = subprocess.run(cmd.split() + [path], stdout=subprocess.DEVNULL, stderr=subprocess.PIPE, timeout=timeout)
     except subprocess.TimeoutExpired:
-        return 124, "timeout: no result within 120 s"
+        return 124, "timeout: no result within %d s" % timeout
     rc = p.returncode if p.returncode >= 0 else 128 - p.returncode       # as a shell reports a signal
     return rc, p.stderr.decode("utf-8", "replace")
 
@@ -245,12 +250,17 @@ class Judge:
         frag = [x.strip() for x in fragment.split("\n") if x.strip()]
         keep = {i for i, ln in enumerate(lines) if "c10_" in ln or "C10_" in ln or any(x in ln for x in frag)}
 
+        import time
+        deadline = time.time() + 45          # shrinking is a convenience: bounded
+
         def test(ls):
+            if time.time() > deadline:
+                return False
             t = "\n".join(ls) + "\n"
-            if one(self.cc, t, self.tmp)[0] != want_rc:
+            if one(self.cc, t, self.tmp, 10)[0] != want_rc:
                 return False
             if oracle:
-                return one(GCC, t, self.tmp)[0] != 0 and one(CLANG, t, self.tmp)[0] != 0
+                return one(GCC, t, self.tmp, 20)[0] != 0 and one(CLANG, t, self.tmp, 20)[0] != 0
             return True
         if len(lines) > 600:
             return text
